@@ -8,6 +8,7 @@ package c16
 
 import (
 	"fmt"
+	"os"
 	"runtime"
 	"sort"
 	"strconv"
@@ -17,11 +18,15 @@ import (
 	"testing"
 	"time"
 
+	"github.com/named-data/ndnd/fw/core"
 	defn "github.com/named-data/ndnd/fw/defn"
 	"github.com/named-data/ndnd/fw/dispatch"
 	"github.com/named-data/ndnd/fw/face"
+	"github.com/named-data/ndnd/fw/mgmt"
 	"github.com/named-data/ndnd/fw/table"
 	enc "github.com/named-data/ndnd/std/encoding"
+	mg "github.com/named-data/ndnd/std/ndn/mgmt_2022"
+	spec "github.com/named-data/ndnd/std/ndn/spec_2022"
 	"verif/harness/common"
 )
 
@@ -50,6 +55,17 @@ var directPrefixes = []string{"/8:66", "/8:66/8:61", "/8:66/8:61/8:62", "/8:66/8
 // directHeavy histories concentrate on the prefixes managed by direct FIB commands
 var directHeavy bool
 
+// clientHeavy histories register mostly routes of origin client (65): the ones the RIB hands to the
+// NLSR readvertiser (same prefix over several faces, withdrawn one by one)
+var clientHeavy bool
+
+func genOrigin(r *common.Rand) uint64 {
+	if clientHeavy && r.Chance(4, 5) {
+		return 65
+	}
+	return common.Pick(r, []uint64{0, 65, 255})
+}
+
 func genWrite(r *common.Rand, g *common.Gen, u []enc.Name, faces []uint64) string {
 	if r.Chance(1, 4) || (directHeavy && r.Chance(3, 4)) {
 		n := common.Pick(r, directPrefixes)
@@ -64,11 +80,11 @@ func genWrite(r *common.Rand, g *common.Gen, u []enc.Name, faces []uint64) strin
 	switch k := r.Intn(10); {
 	case k < 5:
 		g.Stat("op-reg")
-		return fmt.Sprintf("reg,%s,%d,%d,%d,%d", n, common.Pick(r, faces), common.Pick(r, []uint64{0, 65, 255}),
+		return fmt.Sprintf("reg,%s,%d,%d,%d,%d", n, common.Pick(r, faces), genOrigin(r),
 			common.Pick(r, []uint64{0, 1, 5, 10, 77}), r.Intn(4))
 	case k < 7:
 		g.Stat("op-unreg")
-		return fmt.Sprintf("unreg,%s,%d,%d", n, common.Pick(r, faces), common.Pick(r, []uint64{0, 65, 255}))
+		return fmt.Sprintf("unreg,%s,%d,%d", n, common.Pick(r, faces), genOrigin(r))
 	case k < 8:
 		g.Stat("op-cleanup")
 		return fmt.Sprintf("cleanup,%d", common.Pick(r, faces))
@@ -125,6 +141,10 @@ func gen(g *common.Gen) {
 		u := genUniverse(r)
 		faces := []uint64{5, 6, 7, 8}[:r.Range(2, 4)]
 		directHeavy = r.Chance(1, 3)
+		clientHeavy = !directHeavy && r.Chance(1, 2)
+		if clientHeavy {
+			g.Stat("histories-client-origin-heavy")
+		}
 		if directHeavy {
 			g.Stat("histories-direct-fib-heavy")
 			// several next hops per directly managed prefix, so that removals shift elements in place
@@ -167,9 +187,11 @@ func gen(g *common.Gen) {
 			g.Op("faces,%d", r.Range(2, 8))
 			g.Stat("op-face-table-round")
 		}
+		g.Op("adv")
 		g.Op("par %s", strings.Join(threads, " | "))
 		// final observation: the whole RIB, strategy table, FIB and a lookup per universe name
 		g.Op("lr")
+		g.Op("adv")
 		g.Op("ls")
 		g.Op("lf")
 		for _, d := range directPrefixes {
@@ -189,7 +211,87 @@ var (
 	fib  table.FibStrategy
 	rib  *table.RibTable
 	tick atomic.Uint64
+
+	// the real NLSR readvertiser of this history, the transport its commands queue on, the commands
+	// taken from there so far ("r:<name>" / "u:<name>", in queue order) and the names seen (by hash)
+	rv      *mgmt.NlsrReadvertiser
+	rvT     *face.InternalTransport
+	rvSeq   []string
+	rvNames map[uint64]string
+
+	// set by the watchdog: goroutines of this history are blocked inside the tables (they may still hold
+	// references to them, so the tables are left alone and the rest of the history is skipped)
+	wedged bool
 )
+
+func init() {
+	// the readvertiser logs every command and queues it on an internal transport: quiet logger, and the
+	// configured face queue size (1024) instead of the zero value (an unbuffered queue would block the sender)
+	cfg := core.DefaultConfig()
+	cfg.Core.LogLevel = "FATAL"
+	core.LoadConfig(cfg, "")
+	core.InitializeLogger(os.DevNull)
+	face.Configure()
+}
+
+// drainReadvertiser takes the commands the readvertiser queued since the last call.
+func drainReadvertiser() {
+	if rvT == nil {
+		return
+	}
+	for _, frame := range face.VerifC16TakeSent(rvT) {
+		rvSeq = append(rvSeq, decodeCommand(frame))
+	}
+}
+
+func decodeCommand(frame []byte) string {
+	pkt, _, err := spec.ReadPacket(enc.NewBufferReader(frame))
+	if err != nil || pkt.LpPacket == nil {
+		return "?:lp"
+	}
+	inner, _, err := spec.ReadPacket(enc.NewWireReader(pkt.LpPacket.Fragment))
+	if err != nil || inner.Interest == nil {
+		return "?:interest"
+	}
+	n := inner.Interest.NameV
+	if len(n) < 5 || n[0].String() != "localhost" || n[1].String() != "nlsr" || n[2].String() != "rib" {
+		return "?:name"
+	}
+	cp, err := mg.ParseControlParameters(enc.NewBufferReader(n[4].Val), true)
+	if err != nil || cp.Val == nil {
+		return "?:params"
+	}
+	switch n[3].String() {
+	case "register":
+		return "r:" + common.NameText(cp.Val.Name)
+	case "unregister":
+		return "u:" + common.NameText(cp.Val.Name)
+	}
+	return "?:verb"
+}
+
+func renderAdv() string {
+	var kv [][2]string
+	for h, c := range mgmt.VerifC16Advertised(rv) {
+		if c == 0 {
+			continue
+		}
+		n, ok := rvNames[h]
+		if !ok {
+			n = fmt.Sprintf("?%x", h)
+		}
+		kv = append(kv, [2]string{n, strconv.Itoa(c)})
+	}
+	nr, nu := 0, 0
+	for _, c := range rvSeq {
+		if strings.HasPrefix(c, "r:") {
+			nr++
+		} else if strings.HasPrefix(c, "u:") {
+			nu++
+		}
+	}
+	return fmt.Sprintf("%s reg=%d unreg=%d | %s", renderListing(kv), nr, nu, strings.Join(rvSeq, " "))
+}
 
 func renderHops(hs []*table.FibNextHopEntry) string {
 	if len(hs) == 0 {
@@ -235,6 +337,8 @@ func renderListing(kv [][2]string) string {
 func doOp(op string) string {
 	f := strings.Split(op, ",")
 	switch f[0] {
+	case "adv":
+		return renderAdv()
 	case "reg":
 		rib.AddEncRoute(common.ParseNameText(f[1]), &table.Route{FaceID: common.Atou(f[2]), Origin: common.Atou(f[3]),
 			Cost: common.Atou(f[4]), Flags: common.Atou(f[5])})
@@ -303,7 +407,33 @@ func doOp(op string) string {
 	return "bad-op"
 }
 
+// noteNames records (before anything runs) the names the operations of this line register, so that
+// the readvertiser's hash-keyed counts can be printed by name.
+func noteNames(op string) {
+	for _, part := range strings.FieldsFunc(op, func(c rune) bool { return c == ' ' || c == ';' || c == '|' }) {
+		if f := strings.Split(part, ","); f[0] == "reg" && len(f) > 1 {
+			rvNames[common.ParseNameText(f[1]).Hash()] = f[1]
+		}
+	}
+}
+
+// exec runs one line; the commands the readvertiser queued meanwhile are taken off its transport
+// afterwards (the queue holds 1024, far more than one line can produce).
 func exec(op string) string {
+	if rvNames != nil {
+		noteNames(op)
+	}
+	res := exec1(op)
+	drainReadvertiser()
+	return res
+}
+
+func exec1(op string) string {
+	if wedged {
+		// goroutines of an earlier history are blocked inside the tables for good: this process observes
+		// nothing more (the violation has been reported; the remaining lines of the batch are skipped)
+		return "skip"
+	}
 	if strings.HasPrefix(op, "new ") {
 		f := strings.Split(op, " ")
 		if strings.HasPrefix(f[1], "hash:") {
@@ -314,6 +444,9 @@ func exec(op string) string {
 		table.FibStrategyTable = fib // the RIB writes to the process global
 		fib.SetStrategyEnc(enc.Name{}, common.ParseNameText(f[2]))
 		rib = table.VerifNewRib()
+		rv, rvT = mgmt.VerifC16NewReadvertiser()
+		table.VerifSetReadvertisers(rv)
+		rvSeq, rvNames = nil, map[uint64]string{}
 		return "ok"
 	}
 	if fib == nil {
@@ -402,7 +535,7 @@ func exec(op string) string {
 		select {
 		case <-done:
 		case <-time.After(20 * time.Second):
-			fib, rib = nil, nil // the tables of this history are wedged: nothing more to observe
+			wedged = true // the tables of this history are wedged: nothing more to observe
 			return "CRASH TIMEOUT deadlock: goroutines of the concurrent block are still blocked after 20 s"
 		}
 		var parts []string
@@ -413,7 +546,16 @@ func exec(op string) string {
 		}
 		return strings.Join(parts, " ")
 	}
-	return doOp(op)
+	// a sequential operation under the same watchdog (a leaked mutex wedges the next operation)
+	resc := make(chan string, 1)
+	go func() { resc <- doOp(op) }()
+	select {
+	case res := <-resc:
+		return res
+	case <-time.After(20 * time.Second):
+		wedged = true
+		return "CRASH TIMEOUT deadlock: the operation is still blocked after 20 s"
+	}
 }
 
 func TestVerif(t *testing.T) { common.Main(t, gen, exec) }
